@@ -17,7 +17,7 @@ import sys
 class SimInput(object):
     """wsgi.input: the request body followed by `extra` pipelined bytes."""
 
-    def __init__(self, ctx, data, extra=b'', short_reads=False, eof_at=None, max_calls=20000):
+    def __init__(self, ctx, data, extra=b'', short_reads=False, limit=None, max_calls=20000):
         self.ctx = ctx
         self.ch = ctx.ch
         self.data = data                      # bytes the server will make available
@@ -30,6 +30,8 @@ class SimInput(object):
         self.calls = []
         self.max_calls = max_calls
         self.returned = 0
+        self.limit = limit                    # declared Content-Length (None: not checked)
+        self.overasked = None                 # first sized call asking beyond the limit
 
     # -- helpers ---------------------------------------------------------------
     def _note(self, what, size):
@@ -44,6 +46,10 @@ class SimInput(object):
         self.returned += len(out)
         return out
 
+    def _check_limit(self, what, size):
+        if self.limit is not None and self.overasked is None and size > self.limit - self.pos:
+            self.overasked = (what, size, self.pos)
+
     @property
     def overread(self):
         """bytes handed out beyond the declared body"""
@@ -56,6 +62,7 @@ class SimInput(object):
             self.unbounded_calls += 1
             return self._take(len(self.buf) - self.pos)
         self.requested += size
+        self._check_limit('read', size)
         n = size
         avail = len(self.buf) - self.pos
         if self.short_reads and n > 1 and avail > 1:
@@ -70,6 +77,7 @@ class SimInput(object):
             limit = len(self.buf) - self.pos
         else:
             self.requested += size
+            self._check_limit('readline', size)
             limit = size
         chunk = self.buf[self.pos:self.pos + limit]
         i = chunk.find(b'\n')
